@@ -28,7 +28,7 @@ ASSUMPTIONS = [
     "reference interpreter decides which elements are top-level of which instance",
     "django mode + `only`: echo of the owner's id inside fill content is not predicted",
 ]
-BOUNDS = {"quick": {"programs": 6400, "depths": [1, 2, 50, 200], "loop_depths": [1, 50, 700]}, "thorough": {"programs": 80000, "depths": [1, 2, 3, 50, 200, 500, 1000, 2000], "loop_depths": [1, 50, 700, 2000]}}
+BOUNDS = {"quick": {"programs": 12800, "depths": [1, 2, 50, 200], "loop_depths": [1, 50, 700]}, "thorough": {"programs": 80000, "depths": [1, 2, 3, 50, 200, 500, 1000, 2000], "loop_depths": [1, 50, 700, 2000]}}
 CFG = {"elems": True, "idecho": True, "errors": False, "isfilled": False, "max_nodes": 4}
 
 
